@@ -3,7 +3,8 @@ from .protoprop import spec
 
 SPEC = spec(
     'C06',
-    ['C06_one_request_in_flight', 'C06_transmit_only_when_nobody_else_waits', 'C06_pending_future_is_the_awaited_one',
+    ['C06_finally_is_the_model', 'C06_retry_releases_the_lock_as_the_source_does', 'C06_close_takes_the_lock_as_the_source_does',
+     'C06_one_request_in_flight', 'C06_transmit_only_when_nobody_else_waits', 'C06_pending_future_is_the_awaited_one',
      'C06_waiting_caller_owns_the_response_future',
      'C06_release_frees_the_lock', 'C06_acquire_queues_behind_waiters', 'C06_future_completes_once', 'C06_delivered_data_was_accepted',
      'C06_two_callers_run', 'C06_second_caller_queues'],
